@@ -2,7 +2,7 @@
     Statements only; proofs are in Proofs/. *)
 From Coq Require Import List NArith ZArith.
 From Cicada Require Import Base.Chars Base.Tag Model.Expand Model.ExpandRef
-  Proofs.ExpandBasics Proofs.EnvWitness Proofs.EnvProofs Proofs.ExpandInert.
+  Proofs.ExpandBasics Proofs.EnvWitness Proofs.EnvProofs Proofs.ExpandInert Model.ExpandOnce Proofs.ExpandOnceProofs.
 From Cicada Require Model.Tokenizer.
 Import ListNotations.
 Local Open Scope N_scope.
@@ -94,6 +94,13 @@ Example C10_untagged_value_is_syntax :
   = Ok [(TNone, [101; 99; 104; 111]); (TNone, [124])].
 Proof. exact untagged_value_is_syntax. Qed.
 
+(** About the PROPOSED repair (notes/C10-fix-1.patch; Model/ExpandOnce.v transcribes the patched
+    functions): the one-pass expansion is the reference for every world -- values are unrestricted. *)
+Theorem C10_once_variant : forall W noeq ps tg,
+  wf_pieces ps = true -> lits_ok noeq ps = true -> tg <> TSq -> tg <> TBq ->
+  expand_env_tok1 W (tg, render_pieces ps) = (tg, den_pieces W ps).
+Proof. exact once_tok_is_den. Qed.
+
 Check C10_refuted : ~ C10_full.
 Check C10_diverges : forall W t,
   expand_one_env W t = t -> env_in_token t = true -> forall f, expand_env_loop f W t = OutOfFuel.
@@ -102,6 +109,7 @@ Check C10_single_quoted : forall f W toks,
 
 Print Assumptions C10_partial.
 Print Assumptions C10_do_expansion_inert.
+Print Assumptions C10_once_variant.
 Print Assumptions C10_refuted.
 Print Assumptions C10_refuted_rescan.
 Print Assumptions C10_refuted_self_reference.
